@@ -1,4 +1,344 @@
-"""Plans for properties with special structure."""
+"""Plans for properties with special structure: C12, C13, C18, C20."""
+import json, os, re, shutil, subprocess, time
+from concurrent.futures import ThreadPoolExecutor
 from vdriver import *  # noqa
+import vdriver as vd
+import plans
 
-PLANS = {}
+# ---------------------------------------------------------------- C12
+
+
+def c12(ver):
+    canaries(ver)
+    wt = "quick" if ver.tier == "quick" else "thorough"
+    res = run_shards("rel", "C12", wt, ver.seed, NCPU, timeout=7200)
+    m = ver.add_run("native release: every scanner called directly through the hook wrappers, buffers abutting guard pages", "rel", wt, res)
+    c = m["counters"]
+    want = ["SwarUri", "SwarValue", "SwarName", "Sse42Uri", "Sse42Value", "Avx2Uri", "Avx2Value", "DispUri(1)", "DispUri(2)",
+            "DispUri(3)", "DispValue(1)", "DispValue(2)", "DispValue(3)", "DispName", "NeonUri", "NeonValue", "NeonName"]
+    for s in want:
+        if c.get("calls:" + s, 0) < 1000:
+            ver.inconclusive.append("floor: scanner %s exercised only %d times (%s)" % (s, c.get("calls:" + s, 0), c.get("unavailable:" + s)))
+    missing = {k: v for k, v in c.items() if k.startswith("backend_bit_missing")}
+    if missing:
+        ver.inconclusive.append("a wrapper did not enter the scanner it names: %s" % missing)
+    if c.get("predicate_table_checks", 0) != 1024:
+        ver.inconclusive.append("class predicate table not fully checked")
+    # second build: compile-time AVX2 dispatch path (dispatch wrappers differ)
+    for v in (["avx2ct", "sse42ct"] if ver.tier == "thorough" else ["avx2ct"]):
+        res = run_shards(v, "C12", "small" if ver.tier == "quick" else "quick", ver.seed, NCPU, timeout=3600)
+        ver.add_run("native release, compile-time dispatch variant " + v, v, "small", res)
+    import engines
+    engines.extra(ver)
+    rule = ("A case is one direct scanner call (backend x class) on a buffer placed against a guard page; the oracle is "
+            "stop == index of the first byte outside the class (harness's own range predicates) or len. Enumerated: every length "
+            "0..=100, every single offending position x every byte value, pairs of offending positions, 34 placements/alignments "
+            "for clean buffers, long buffers with offending bytes near block boundaries, and all 8-byte words over a boundary "
+            "alphabet for the word-at-a-time and (doubled to 16 bytes) NEON block functions. distinct_nontrivial = distinct "
+            "(scanner, buffer[, placement]) cases by 64-bit hash, cases partitioned over shards by enumeration index. The four "
+            "class predicates are compared with the statement's classes for all 256 bytes. NEON runs as the repository's source "
+            "over bit-exact emulated intrinsics (neon_emu.rs).")
+    return ver.finish(rule, plans.ASSUME_COMMON + ["neon_emu.rs models the aarch64 intrinsics faithfully; real NEON hardware is not reachable here"],
+                      extra_cov=dict(exhaustive_subspaces=["lengths 0..=100 x single offending position x all 256 values, per scanner",
+                                                           "all 8-byte words over the listed boundary alphabet, SWAR and NEON block functions",
+                                                           "256-entry class predicate tables"]))
+
+
+# ---------------------------------------------------------------- C13
+
+def digests_of(results):
+    out = {}
+    for r in results:
+        d = r.get("data")
+        if not d:
+            continue
+        for n in d["notes"]:
+            if n.startswith("DIGESTS:"):
+                out[r["shard"]] = n[8:].split(",")
+    return out
+
+
+def c13_runs(tier):
+    runs = []
+    profs = ["", "-dbg"]
+    for p in profs:
+        for bk in ("avx2", "sse42", "scalar"):
+            runs.append(("rel" + p, bk))
+        for v in ("sse42ct", "avx2ct", "nosimd", "nostd"):
+            runs.append((v + p, "asis"))
+    return runs
+
+
+def c13_witness(ver, ref, other, shard, block, wt, nshards):
+    """Re-run one shard of two variants dumping one block; find the first differing case."""
+    dumps = []
+    for (vname, bk) in (ref, other):
+        env = {"VERIF_BACKEND": bk, "VERIF_C13_DUMP": str(block)}
+        r = run_one(vname, "C13", wt, ver.seed, shard, nshards, os.path.join(vd.TARGET_ROOT, "out"), env, 3600)
+        d = None
+        if r.get("data"):
+            for n in r["data"]["notes"]:
+                if n.startswith("DUMP:"):
+                    d = json.loads(n[5:])
+        dumps.append(d)
+    if not dumps[0] or not dumps[1]:
+        ver.inconclusive.append("C13 digest mismatch in shard %d block %d but the dump re-run failed" % (shard, block))
+        return
+    for a, b in zip(dumps[0], dumps[1]):
+        if a["digest"] != b["digest"] or a["hex"] != b["hex"]:
+            detail = ("variant %s/%s: %s | variant %s/%s: %s | entry=%s cfg=%s cap=%s input_hex=%s" %
+                      (ref[0], ref[1], a["result"], other[0], other[1], b["result"], a["entry"], a["cfg"], a["cap"], a["hex"][:600]))
+            v = dict(property="C13", rule="result_differs_between_variants", detail=detail, signature=None,
+                     replay=["c13", a["entry"], str(a["cfg"]), str(a["cap"]), a["hex"]],
+                     replay_cmd=["python3", "driver/c13_case.py", ref[0], ref[1], other[0], other[1], a["entry"], str(a["cfg"]), str(a["cap"]), a["hex"]])
+            ver.violations.append(dict(v, variant=other[0]))
+            return
+    ver.inconclusive.append("C13 digest mismatch in shard %d block %d but no differing case found in the dump" % (shard, block))
+
+
+def c13_lattice(ver):
+    """cargo check of httparse alone for all 32 switch combinations, hooks on and off."""
+    combos = []
+    for std in (True, False):
+        for dis in (False, True):
+            for disct in (False, True):
+                for tf in ("", "+sse4.2", "+avx2", "+sse4.2,+avx2"):
+                    for hooks in (True, False):
+                        combos.append((std, dis, disct, tf, hooks))
+    root = os.path.join(vd.TARGET_ROOT, "lattice")
+    shutil.rmtree(root, ignore_errors=True)
+    os.makedirs(root, exist_ok=True)
+
+    def one(i_c):
+        i, (std, dis, disct, tf, hooks) = i_c
+        env = dict(os.environ)
+        env["CARGO_NET_OFFLINE"] = "true"
+        if dis:
+            env["CARGO_CFG_HTTPARSE_DISABLE_SIMD"] = "1"
+        if disct:
+            env["CARGO_CFG_HTTPARSE_DISABLE_SIMD_COMPILETIME"] = "1"
+        flags = []
+        if hooks:
+            flags.append("--cfg httparse_verif")
+        if tf:
+            flags.append("-Ctarget-feature=" + tf)
+        env["RUSTFLAGS"] = " ".join(flags)
+        cmd = ["cargo", "check", "--offline", "--lib", "--manifest-path", os.path.join(vd.REPO, "Cargo.toml"), "--target-dir",
+               os.path.join(root, "c%d" % i)]
+        if not std:
+            cmd.append("--no-default-features")
+        r = subprocess.run(cmd, env=env, stdout=subprocess.PIPE, stderr=subprocess.STDOUT, text=True)
+        return (i, (std, dis, disct, tf, hooks), r.returncode, r.stdout[-1500:])
+
+    with ThreadPoolExecutor(max_workers=NCPU) as ex:
+        res = list(ex.map(one, enumerate(combos)))
+    shutil.rmtree(root, ignore_errors=True)
+    bad = [r for r in res if r[2] != 0]
+    ok = len(res) - len(bad)
+    ver.extra["cfg_lattice"] = dict(builds=len(res), succeeded=ok,
+                                    dimensions="std x DISABLE_SIMD x DISABLE_SIMD_COMPILETIME x {none,+sse4.2,+avx2,+sse4.2+avx2} x hooks{on,off}")
+    for (i, c, rc, out) in bad[:3]:
+        name = "std=%s DISABLE_SIMD=%s DISABLE_SIMD_COMPILETIME=%s target-feature=%s hooks=%s" % c
+        # a hooks-on-only failure is the instrumentation's problem, not the repository's
+        if c[4] and not any(b[1][:4] == c[:4] and not b[1][4] for b in bad):
+            ver.inconclusive.append("lattice build fails only with hooks on: %s\n%s" % (name, out))
+            continue
+        ver.violations.append(dict(property="C13", rule="switch_combination_does_not_build", variant="lattice", signature=None,
+                                   detail="%s: cargo check failed: %s" % (name, out[-900:]),
+                                   replay=["lattice", name],
+                                   replay_cmd=["python3", "driver/lattice_case.py", str(int(c[0])), str(int(c[1])), str(int(c[2])), c[3] or "-"]))
+    ver.evaluations += len(res)
+
+
+def c13_coldstart(ver):
+    d = build("rel")
+    n = 300 if ver.tier == "quick" else 6000
+    binp = os.path.join(d, "coldstart")
+
+    def one(i):
+        r = subprocess.run([binp, "16", str(ver.seed * 100003 + i)], stdout=subprocess.PIPE, stderr=subprocess.STDOUT, text=True, timeout=120)
+        try:
+            return i, r.returncode, json.loads(r.stdout.strip().splitlines()[-1])
+        except Exception:
+            return i, r.returncode, None
+
+    with ThreadPoolExecutor(max_workers=4) as ex:   # few at a time: 16 threads each
+        res = list(ex.map(one, range(n)))
+    hist = {}
+    bad = 0
+    allocs = 0
+    for i, rc, j in res:
+        if j is None:
+            ver.inconclusive.append("coldstart process %d gave no result (rc=%s)" % (i, rc))
+            continue
+        hist[j["detects"]] = hist.get(j["detects"], 0) + 1
+        allocs = max(allocs, j["first_call_allocs"])
+        if not j["all_equal"]:
+            bad += 1
+            if bad <= 2:
+                ver.violations.append(dict(property="C13", rule="cold_start_race_changes_result", variant="rel", signature=None,
+                                           detail="16 threads making their first parse concurrently: thread %s got a result different from the sequential parse (seed %d)" % (j["first_bad_thread"], ver.seed * 100003 + i),
+                                           replay=["coldstart", "16", str(ver.seed * 100003 + i)],
+                                           replay_cmd=[binp, "16", str(ver.seed * 100003 + i)]))
+    ver.extra["cold_start"] = dict(processes=n, threads_per_process=16, detections_per_process_histogram={str(k): v for k, v in sorted(hist.items())},
+                                   max_allocator_events_in_first_call=allocs)
+    raced = sum(v for k, v in hist.items() if k > 1)
+    if raced < n // 10:
+        ver.inconclusive.append("cold-start race was provoked in only %d of %d processes" % (raced, n))
+    ver.evaluations += n * 16
+
+
+def c13(ver):
+    canaries(ver)
+    wt = "quick" if ver.tier == "quick" else "thorough"
+    runs = c13_runs(ver.tier)
+    allres = {}
+    for (vname, bk) in runs:
+        res = run_shards(vname, "C13", wt, ver.seed, NCPU, extra_env={"VERIF_BACKEND": bk}, timeout=7200)
+        m = ver.add_run("digest corpus under %s backend=%s" % (vname, bk), vname, wt, res)
+        if bk != "asis" and any("cannot be forced" in n for n in m["notes"]):
+            ver.inconclusive.append("backend %s could not be forced in %s" % (bk, vname))
+        allres[(vname, bk)] = digests_of(res)
+    ref = runs[0]
+    nblocks = sum(len(v) for v in allres[ref].values())
+    mism = 0
+    for other in runs[1:]:
+        for shard, dg in allres[ref].items():
+            od = allres[other].get(shard)
+            if od is None:
+                continue
+            if od != dg:
+                mism += 1
+                if mism <= 3:
+                    blk = next((i for i, (a, b) in enumerate(zip(dg, od)) if a != b), min(len(dg), len(od)))
+                    c13_witness(ver, ref, other, shard, blk, wt, NCPU)
+    ver.extra["digest_runs"] = ["%s/%s" % r for r in runs]
+    ver.extra["digest_blocks_compared_per_run"] = nblocks
+    ver.extra["digest_vectors_equal"] = mism == 0
+    c13_lattice(ver)
+    c13_coldstart(ver)
+    import engines
+    engines.extra(ver)
+    rule = ("Clause 1: a deterministic corpus (G1, G2/G3/G4 samples, G5, G6, G8; each case with its own entry point, config and "
+            "capacity, each run at 4 placements/alignments whose results must agree) is run by 14 variants "
+            "{runtime dispatch forced to AVX2, SSE4.2, scalar; compile-time sse4.2; compile-time avx2; SIMD disabled; no_std} x "
+            "{release, debug-assertions}; one 64-bit digest per 256 cases; all digest vectors must be equal (a mismatch is "
+            "resolved to the first differing case). distinct_nontrivial = distinct non-empty corpus buffers. Clause 2: cargo "
+            "check of all 32 switch combinations, hooks on and off. Clause 3: fresh processes in which 16 threads make their "
+            "first parse at the same instant (spin barrier); every result must equal the sequential result; the histogram of "
+            "runtime detections per process shows how often the race was provoked.")
+    return ver.finish(rule, plans.ASSUME_COMMON + ["CPUs lacking AVX2/SSE4.2, aarch64 and 32-bit x86 are not reachable in this sandbox"])
+
+
+# ---------------------------------------------------------------- C18
+
+def c18(ver):
+    canaries(ver)
+    wt = "quick" if ver.tier == "quick" else "thorough"
+    res = run_shards("rel", "C18", wt, ver.seed, NCPU, timeout=7200)
+    m = ver.add_run("native release, histories on one reused value vs fresh value", "rel", wt, res)
+    c = m["counters"]
+    for k in ("Complete", "Partial", "Err(TooManyHeaders)", "Err(HeaderName)", "Err(Token)"):
+        if c.get("earlier_outcome:" + k, 0) < 20:
+            ver.inconclusive.append("floor: earlier-call outcome %s seen only %d times" % (k, c.get("earlier_outcome:" + k, 0)))
+    if c.get("probe_on_shrunk_headers_slice", 0) < 20:
+        ver.inconclusive.append("floor: probe after a shrinking Complete seen too rarely")
+    if ver.tier == "thorough":
+        res = run_shards("rel-dbg", "C18", "quick", ver.seed, NCPU, timeout=3600)
+        ver.add_run("native debug-assertions", "rel-dbg", "quick", res)
+    import engines
+    engines.extra(ver)
+    rule = ("A case is a history of 1..4 earlier parse calls (entry point among init / with-config / uninit variants, own config, "
+            "own buffer: templates, grammar-random, mutated, prefixes or extensions of the probe buffer) on ONE Request/Response "
+            "value over an array of capacity in {0,1,2,3,4,6,16,64}, followed by a probe; the probe is repeated on a fresh value "
+            "whose array has the length the reused value's headers slice had just before the probe. Status must be equal and, on "
+            "Complete, all fields and headers. distinct_nontrivial = distinct histories by hash of all steps.")
+    return ver.finish(rule, plans.ASSUME_COMMON)
+
+
+# ---------------------------------------------------------------- C20
+
+def callgrind_ir(binp, fam, n, bk, outdir):
+    out = os.path.join(outdir, "cg-%d-%d-%d.out" % (fam, n, bk))
+    cmd = ["valgrind", "--tool=callgrind", "--toggle-collect=measured_inner", "--callgrind-out-file=" + out, binp, str(fam), str(n), str(bk)]
+    r = subprocess.run(cmd, stdout=subprocess.PIPE, stderr=subprocess.STDOUT, text=True, timeout=3600)
+    ir = None
+    length = None
+    name = None
+    try:
+        for line in open(out):
+            if line.startswith("totals:") or line.startswith("summary:"):
+                ir = int(line.split()[1])
+        os.remove(out)
+        mm = re.search(r'"family":"([^"]+)","len":(\d+)', r.stdout)
+        if mm:
+            name, length = mm.group(1), int(mm.group(2))
+    except Exception:
+        pass
+    return fam, n, bk, ir, length, name, r.stdout[-400:]
+
+
+C20_IR_PER_BYTE = 400
+C20_IR_CONST = 100000
+C20_RATIO = 4.6
+
+
+def c20(ver):
+    canaries(ver)
+    wt = "quick" if ver.tier == "quick" else "thorough"
+    res = run_shards("rel", "C20", wt, ver.seed, NCPU, timeout=7200)
+    m = ver.add_run("native release: hook counters (cursor travel, byte reads, block peeks, cursor operations) around each call", "rel", wt, res)
+    if not m["maxes"].get("max_reads_per_byte"):
+        ver.inconclusive.append("hook counters never observed")
+    # callgrind: instruction counts of the measured region, hook-independent scaling check
+    d = build("rel")
+    binp = os.path.join(d, "scale")
+    outdir = os.path.join(vd.TARGET_ROOT, "out")
+    sizes = [1 << 12, 1 << 14, 1 << 16] if ver.tier == "quick" else [1 << 12, 1 << 14, 1 << 16, 1 << 18, 1 << 20]
+    fams = list(range(24))
+    bks = [1, 3] if ver.tier == "quick" else [1, 2, 3]
+    jobs = [(f, n, b) for f in fams for n in sizes for b in bks]
+    with ThreadPoolExecutor(max_workers=NCPU) as ex:
+        cg = list(ex.map(lambda j: callgrind_ir(binp, j[0], j[1], j[2], outdir), jobs))
+    table = {}
+    for fam, n, bk, ir, length, name, tail in cg:
+        if ir is None or length is None:
+            ver.inconclusive.append("callgrind run failed for family %d n=%d backend=%d: %s" % (fam, n, bk, tail))
+            continue
+        table.setdefault((fam, bk, name), []).append((length, ir))
+    worst_ratio, worst_per_byte = 0.0, 0.0
+    for (fam, bk, name), pts in table.items():
+        pts.sort()
+        for (l0, i0), (l1, i1) in zip(pts, pts[1:]):
+            ratio = i1 / max(i0, 1)
+            growth = l1 / l0
+            norm = ratio / growth * 4.0   # normalised to a 4x size step
+            worst_ratio = max(worst_ratio, norm)
+            if norm > C20_RATIO and i1 > 200000:
+                ver.violations.append(dict(property="C20", rule="instruction_count_superlinear", variant="rel", signature=None,
+                                           detail="family %s backend %d: Ir(%d bytes)=%d, Ir(%d bytes)=%d: ratio %.2f for a %.2fx longer input" % (name, bk, l0, i0, l1, i1, ratio, growth),
+                                           replay=["scale", str(fam), str(l1), str(bk)]))
+        for (l, i) in pts:
+            worst_per_byte = max(worst_per_byte, (i - C20_IR_CONST) / l)
+            if i > C20_IR_PER_BYTE * l + C20_IR_CONST:
+                ver.violations.append(dict(property="C20", rule="instruction_count_per_byte_too_high", variant="rel", signature=None,
+                                           detail="family %s backend %d: %d instructions for %d bytes" % (name, bk, i, l),
+                                           replay=["scale", str(fam), str(l), str(bk)]))
+    ver.evaluations += len(cg)
+    ver.extra["callgrind"] = dict(runs=len(cg), families=len(fams), sizes=sizes, backends=bks,
+                                  worst_Ir_ratio_normalised_to_4x_step=round(worst_ratio, 3),
+                                  worst_Ir_per_byte=round(worst_per_byte, 2), bound_ratio=C20_RATIO, bound_Ir_per_byte=C20_IR_PER_BYTE,
+                                  sample_points=[dict(family=k[2], backend=k[1], points=v) for k, v in list(sorted(table.items()))[:6]])
+    import engines
+    engines.extra(ver)
+    rule = ("A case is one parse of an adversarial-family input (24 families: folded 1-byte lines, ignored lines, whitespace runs in "
+            "every position, TAB runs/alternation, near-miss blocks every 8/33 bytes, tiny headers with capacity N and 0, 1 MiB-class "
+            "target/name/value/reason, leading empty lines, chunk extensions, multi-space delimiters, ...) at several sizes x forced "
+            "backend, plus every other entry point of the kind, a cut at 2/3, and large grammar-random inputs. Oracle 1 (hook "
+            "counters): no backward cursor move, travel <= len and == n on Complete, reads <= 4*len+256, block peeks <= 2.5*len+256, "
+            "cursor operations <= 8*len+256 (observed maxima in `maxima`). Oracle 2 (callgrind): instructions of the measured region "
+            "at sizes 4x apart must grow <= 4.6x and stay <= 400*len+1e5. distinct_nontrivial = distinct (input, backend) pairs.")
+    return ver.finish(rule, plans.ASSUME_COMMON + ["callgrind instruction counts are deterministic; wall time is never a verdict"])
+
+
+PLANS = {"C12": c12, "C13": c13, "C18": c18, "C20": c20}
